@@ -542,7 +542,7 @@ func TestC11Isolation(t *testing.T) {
 				rt.Fatalf("C11: %v\n%d peers, cipher %s, fec %v", err, npeers, cipher, fec)
 			}
 		})
-		cl := []string{"cipher_" + cipher, fmt.Sprintf("peers_%d", npeers)}
+		cl := []string{"isolation_cases", "cipher_" + cipher, fmt.Sprintf("peers_%d", npeers)}
 		if maxConcurrent >= 3 {
 			cl = append(cl, "ge3_concurrent_streams")
 		}
